@@ -102,6 +102,24 @@ class Problem(object):
             B = rng.normal(size=(n, n))
             self.B = B @ B.T + np.eye(n)
             self.beta = float(d.mean() / (cl @ self.B @ cl + 1e-30) * 10 ** rng.uniform(-1, 1.5))
+        elif family == 'log_spring':
+            # two uncoupled groups: a linear group and a group of logarithmic springs f_i = k_i s_i log(1 + c_i/s_i) whose force is
+            # undefined (NaN) for c_i <= -s_i.  Equilibrium exists for every load, but a full first Newton step overshoots into the
+            # undefined range when the load is below -k_i s_i
+            nb = max(1, n // 2)
+            self.nb = nb
+            Kb = np.zeros((n, n))
+            na = n - nb
+            if na:
+                Kb[:na, :na] = self.K[:na, :na] + np.eye(na) * d.mean()
+            self.kb = 10 ** rng.uniform(0, 2, nb)
+            self.sb = 10 ** rng.uniform(-1, 1, nb)
+            Kb[na:, na:] = np.diag(self.kb)
+            self.K = Kb
+            self.f0 = np.zeros(n)
+            self.f1[na:] = -self.kb * self.sb * rng.uniform(0.3, 3.0, nb)
+            cl = np.linalg.solve(self.K, self.f0 + self.f1)
+            self.cscale = float(np.abs(cl).max()) + 1e-12
         elif family == 'truss':
             # 1 effective dof snap-through: f = k (c^3 - 3 h c^2 + 2 h^2 c), limit load k h^3 * 2/(3 sqrt 3)
             self.n = n = 1
@@ -140,6 +158,11 @@ class Problem(object):
         elif fam == 'quartic':
             Bc = self.B @ c
             f = self.K @ c + self.beta * (c @ Bc) * Bc
+        elif fam == 'log_spring':
+            na = self.n - self.nb
+            f = self.K @ c
+            with np.errstate(all='ignore'):
+                f[na:] = self.kb * self.sb * np.log1p(c[na:] / self.sb)
         elif fam == 'truss':
             x = c[0]
             f = np.array([self.k * (x ** 3 - 3 * self.h * x ** 2 + 2 * self.h ** 2 * x)])
@@ -157,6 +180,11 @@ class Problem(object):
         elif fam == 'quartic':
             Bc = self.B @ c
             J = self.K + self.beta * ((c @ Bc) * self.B + 2 * np.outer(Bc, Bc))
+        elif fam == 'log_spring':
+            na = self.n - self.nb
+            J = self.K.copy()
+            with np.errstate(all='ignore'):
+                J[na:, na:] = np.diag(self.kb / (1 + c[na:] / self.sb))
         elif fam == 'truss':
             x = c[0]
             J = np.array([[self.k * (3 * x ** 2 - 6 * self.h * x + 2 * self.h ** 2)]])
@@ -364,6 +392,8 @@ def step_bound(s):
 def run_case(rng, tier, idx):
     del _trace[:]
     family = str(rng.choice(['cubic_stiff', 'cubic_soft', 'quartic', 'truss', 'linear', 'cubic_stiff']))
+    if rng.random() < 0.08:
+        family = 'log_spring'
     n = int(rng.integers(1, 9))
     nnull = int(rng.integers(0, 4)) if rng.random() < 0.3 else 0
     pb = Problem(rng, family, n, nnull)
